@@ -474,7 +474,7 @@ class AioWorld(WorldBase):
             await arun.worker_serve(
                 self.app, self.config,
                 sockets=Sockets([], [self.listen_sock], []),
-                shutdown_trigger=trigger,
+                shutdown_trigger=None if sc.get("no_trigger") else trigger,
             )
 
         self.serve_task = self.loop.create_task(serve())
